@@ -34,7 +34,8 @@ def cases(tier, seed):
         length_words = r.randint(range_words + 1, 3 * range_words) if long_run else r.randint(8, range_words)
         if k % 13 == 12:
             length_words = r.choice([1, 2, 3, range_words])      # corner lengths: a single word ... exactly the range
-        c = dict(port=["native", "native", "native", "axi"][k % 4], dw=dw, base=r.randrange(0, 64) * range_words * wb,
+        c = dict(port=["native", "native", "native", "axi"][k % 4], dw=dw,
+                 base=(r.randrange(0, 64) + (r.choice([0, 0, 1 << 18]))) * range_words * wb,       # incl. bases with high address bits set
                  range_bytes=range_words * wb, length=length_words * wb, random_data=bool((k // 2) % 2),
                  random_addr=bool((k // 7) % 3 == 2), corrupt=CORRUPT[k % len(CORRUPT)],
                  cmd_ready_prob=r.choice([1.0, 0.7, 0.4]), extra_lat=r.choice([(0, 0), (0, 8), (0, 30)]),
@@ -85,7 +86,7 @@ def run_case(c):
     dw = c["dw"]
     wb = dw // 8
     ashift = wb.bit_length() - 1
-    aw = 16
+    aw = 27 if c["base"] >= (1 << 16) else 16        # the port must hold base + range (bases with high bits need a large port)
     backend = None
     if c["port"] == "core":
         from ..corebackend import CoreBackend
